@@ -136,31 +136,98 @@ func cmdCheck(args []string) {
 		}
 	}
 	unbound := p.unboundContracts()
-
-	// 2. vacuity guards: every unit has a satisfiable path to a return
-	guards := 0
-	for _, u := range units {
-		if u.unsupported != "" {
-			continue
-		}
-		ok := false
-		for _, pc := range u.retPCs {
-			o := &Oblig{Name: "cover", PC: pc, Goal: "true", Unit: u}
-			q := o.query(nil, false)
-			r := sv.solve(q, solverOrder(q))
-			guards++
-			if r.Status == "sat" {
-				ok = true
-				break
+	for _, u := range p.theoremUnits() {
+		has := false
+		for _, o := range u.obligs {
+			if hasProp(o.Props, *prop) {
+				obs = append(obs, o)
+				has = true
 			}
 		}
-		if !ok && len(u.retPCs) > 0 {
-			broken("vacuity guard: no return of %s is reachable under its preconditions", p.keyOf[u.fn])
+		if u.unsupported != "" && strings.Contains(u.unsupported, "") {
+			for _, th := range p.cs.Theorems {
+				if th.Label == u.thName && hasProp(th.Props, *prop) {
+					broken("theorem %s: %s", th.Label, u.unsupported)
+				}
+			}
 		}
+		if has {
+			funcs["theorem "+u.thName] = true
+		}
+	}
+
+	dbg := func(what string) {
+		if os.Getenv("VERIF_DEBUG") != "" {
+			fmt.Fprintf(os.Stderr, "[%6.1fs] %s\n", time.Since(t0).Seconds(), what)
+		}
+	}
+	dbg("generated")
+	// 2. vacuity guards: every unit has a satisfiable path to a return
+	// Guards run concurrently with the main solving. A guard fails only on `unsat` (no return reachable /
+	// hypothesis and lemma instances contradictory); a model search that times out is not a failure.
+	guards := 0
+	type gres struct {
+		what string
+		ok   bool
+		n    int
+	}
+	gout := make(chan gres, 256)
+	ngu := 0
+	svg := &Solver{scratch: sd, timeout: 5 * time.Second}
+	for _, u := range units {
+		if u.unsupported != "" || len(u.retPCs) == 0 {
+			continue
+		}
+		ngu++
+		go func(u *Unit) {
+			pcs := append([][]string{}, u.retPCs...)
+			sort.SliceStable(pcs, func(i, j int) bool { return len(pcs[i]) < len(pcs[j]) })
+			ok, n := false, 0
+			for i, pc := range pcs {
+				if i >= 8 {
+					ok = true // not all paths examined: cannot conclude unreachability
+					break
+				}
+				o := &Oblig{Name: "cover", PC: pc, Goal: "true", Unit: u}
+				q := o.query(nil, false)
+				r := svg.solve(q, []string{"z3-new"})
+				n++
+				if r.Status != "unsat" {
+					ok = true
+					break
+				}
+			}
+			gout <- gres{"no return of " + p.keyOf[u.fn] + " is reachable under its preconditions and the instantiated lemmas", ok, n}
+		}(u)
+	}
+	for _, o := range obs {
+		if o.Kind != "theorem" {
+			continue
+		}
+		ngu++
+		go func(o *Oblig) {
+			hyp := "true"
+			if xs, err := parseSx(o.Goal); err == nil && len(xs) == 1 && xs[0].isList && len(xs[0].list) == 3 && xs[0].list[0].atom == "=>" {
+				hyp = xs[0].list[1].String()
+			}
+			c := &Oblig{Name: "cover", PC: []string{hyp}, Goal: o.Goal, Unit: o.Unit}
+			q := c.query(nil, false) // asserts the hypothesis, the goal and the lemma instances triggered by both
+			r := svg.solve(q, []string{"z3-new"})
+			gout <- gres{"hypothesis and lemma instances of theorem " + o.Name + " are contradictory", r.Status != "unsat", 1}
+		}(o)
 	}
 
 	// 3. solve
 	rs := solveAll(obs, sv, 16)
+	dbg("solved")
+	for i := 0; i < ngu; i++ {
+		g := <-gout
+		guards += g.n
+		if !g.ok {
+			broken("vacuity guard: %s", g.what)
+		}
+	}
+	dbg("guards done")
 	names := aggregate(rs)
 	byName := map[string]*NameResult{}
 	for _, n := range names {
